@@ -489,9 +489,12 @@ func RunScenario(t *testing.T, sc *Scenario, tape []int32) *RunResult {
 					if obsStop {
 						return
 					}
+					// a snapshot is "stable" when nobody else could move from the moment it
+					// began (a wake-up may be left over from an earlier stable point) to its end
+					quiet := simsync.ReadyOthers() == 0
 					b0, t0 := simsync.OtherSteps(self), simsync.Elapsed()
 					st, err := snapStates(runner)
-					stable := simsync.OtherSteps(self) == b0 && simsync.Elapsed() == t0
+					stable := quiet && simsync.OtherSteps(self) == b0 && simsync.Elapsed() == t0
 					simlog.Add(simlog.Event{Kind: "obs.snap", N: b2i(stable), Data: Snap{Stable: stable, States: st, Err: errStr(err)}})
 				}
 			})
